@@ -117,12 +117,16 @@ FamWitness ==
       \* ONE component of a blinding vector is zero (degree >= 2), at one position of an aggregate
       Zk == { One([Member(n, t, m, m, "mid", "one", j, "none", "none", 0, 0, 0, "chacha") EXCEPT !.zb = j, !.zk = k], "VerifyOnly") :
                 n \in {4, 64}, t \in {2, 3}, m \in {1, 2, 4}, j \in 1..4, k \in 1..3 }
+      \* many commitments, one promise not met (or one value out of range) at an early, a middle and a late position
+      Wide == { One(Member(2, 1, 128, 128, "mid", vs, j, "none", ps, j, 0, 0, "chacha"), "VerifyOnly") :
+                  j \in {1, 64, 65, 100, 128}, vs \in {"one", "over"}, ps \in {"none", "eq", "gt"} }
       \* all-zero blinding vectors (with value zero the commitment is the identity)
       Z == { One([Member(n, t, m, m, "mid", vs, j, "none", ps, j, 0, 0, "chacha") EXCEPT !.zb = j], "VerifyOnly") :
                n \in NsW, t \in {1, 2}, m \in Ms, j \in 1..4, vs \in {"zero", "one"}, ps \in {"none", "zero"} }
   IN {s \in B \cup W \cup W3 : s.members[1].wit.j <= s.members[1].m} \cup {s \in W2 : s.members[1].wit.j < s.members[1].m}
      \cup {s \in B2 : \E j \in 1..7, j2 \in 2..8 : j < j2 /\ j2 <= s.members[1].m /\ s.members[1].vals[j] # Val("mid", s.members[1].n) /\ s.members[1].vals[j2] # Val("mid", s.members[1].n)}
      \cup {s \in Z : s.members[1].zb <= s.members[1].m}
+     \cup Wide
      \cup {s \in Zk : s.members[1].zb <= s.members[1].m /\ s.members[1].zk <= s.members[1].t}
      \cup {s \in E : s.members[1].eqb <= s.members[1].m /\ \E j \in 1..8 : j <= s.members[1].m /\ (j = s.members[1].eqb - 1 \/ j = s.members[1].eqb)}
 
@@ -213,6 +217,7 @@ Kind(n, t, kd) ==
     [] kd = "v32"  -> Plain(n, t, 32, 32, 0)
     [] kd = "v64"  -> Plain(n, t, 64, 64, 0)
     [] kd = "dupX"  -> [[Plain(n, t, 1, 1, 0) EXCEPT !.bseed = 7] EXCEPT !.mut = [kind |-> "scalar", slot |-> "d1", j |-> 0, how |-> "plus1"]]   \* the same triple with one response altered
+    [] kd = "dupP"  -> LET mb == [Plain(n, t, 1, 1, 0) EXCEPT !.bseed = 7] IN [mb EXCEPT !.v.proms[1] = U64One]    \* the same triple under a substituted promise
     [] kd = "dupS"  -> [Plain(n, t, 1, 1, 1) EXCEPT !.bseed = 7]                      \* the same SEEDED triple ...
     [] kd = "dupSL" -> LET mb == [Plain(n, t, 1, 1, 1) EXCEPT !.bseed = 7] IN [mb EXCEPT !.v.label = 1]   \* ... handed in with another context
     [] kd = "dupSw" -> LET mb == [Plain(n, t, 1, 1, 1) EXCEPT !.bseed = 7] IN [mb EXCEPT !.v.seed = 2]    \* ... recovered under the wrong seed
@@ -259,6 +264,9 @@ FamBatch ==
   \* the same triple twice, the second copy with an altered response scalar (all points equal, responses different)
   \cup { ScenF(ms, "VerifyOnly", NoSkew, FALSE, <<Kind(4, 1, "v1")>>) :
           ms \in { <<Kind(4, 1, "dup"), Kind(4, 1, "dupX")>>, <<Kind(4, 1, "dupX"), Kind(4, 1, "dup")>>, <<Kind(4, 1, "v1"), Kind(4, 1, "dup"), Kind(4, 1, "dupX")>> } }
+  \* the same triple twice, once under a substituted (in-range) promise
+  \cup { ScenF(ms, "VerifyOnly", NoSkew, FALSE, <<Kind(4, 1, "v1")>>) :
+          ms \in { <<Kind(4, 1, "dup"), Kind(4, 1, "dupP")>>, <<Kind(4, 1, "dupP"), Kind(4, 1, "dup")>>, <<Kind(4, 1, "v1"), Kind(4, 1, "dup"), Kind(4, 1, "dupP")>> } }
   \* the same seeded triple twice in a row, the second time in another context
   \cup { ScenF(ms, mode, NoSkew, FALSE, <<Kind(4, 1, "v1")>>) :
           ms \in { <<Kind(4, 1, "dupS"), Kind(4, 1, "dupSL")>>, <<Kind(4, 1, "dupS"), Kind(4, 1, "dupS")>>, <<Kind(4, 1, "v1"), Kind(4, 1, "dupS"), Kind(4, 1, "dupSL")>> },
@@ -356,6 +364,10 @@ FamBind ==
   IN UNION { { Pair([BaseMember(b) EXCEPT !.mut = pm[1]], pm[2], FALSE) : pm \in PointMut(b) }
              \cup { Pair([BaseMember(b) EXCEPT !.mut = sm], 0, TRUE) : sm \in ScalMut(b) }
              \cup { Pair([BaseMember(b) EXCEPT !.v = vf[1]], vf[2], FALSE) : vf \in VFirst(BaseMember(b)) } : b \in BB }
+     \* a statement that already holds a run of equal commitments ([A, B, C, C]); one commitment is replaced by a copy of its left
+     \* neighbour ([A, B, B, C], [A, A, C, C]): the statement changed, so every challenge changes
+     \cup LET mbq == [Member(4, 1, 4, 4, "mid", "mid", 0, "none", "none", 0, 0, 0, "chacha") EXCEPT !.eqb = 4] IN
+          { Pair([mbq EXCEPT !.v = [mbq.v EXCEPT !.commit = "copy", !.cj = j]], 1, FALSE) : j \in {2, 3} }
      \* a long statement (bits*aggregation = 1024) accepted first and then presented again with one datum perturbed
      \cup LET mb == BaseMember(<<64, 1, 16, 16, 0>>) IN
           { Pair([mb EXCEPT !.v = vf[1]], vf[2], FALSE) :
